@@ -344,6 +344,16 @@ def run(tier):
     rep.assumptions += ['coefficients are the decimal text of the table in athlib/athlon_score.py; WMA factors are read from wma-athlons-data.json by the check',
                         'glibc pow is within 1e-9 relative (only used to decide when 60-digit Decimal evaluation is needed)',
                         '(row, age) pairs whose event has no WMA factor are outside the domain: ValueError or a value accepted']
+    # the same function on a thinned grid of every row with the decimal context of the calling thread changed by the host application
+    amb = []
+    for key in sorted(G['rows']):
+        g, e = key
+        hi = grid_hi(G, key)
+        for cs in range(1, hi, max(1, hi // 300)):
+            amb.append(('athlib.athlon_score', (g, e, cs / 100.0)))
+            if cs % 3 == 0:
+                amb.append(('athlib.athlon_score', (g, e, cs / 100.0, 52)))
+    crossapi.ambient_grid(rep, amb, 'ambient decimal context')
     crossapi.part(rep, PID, tier)
     return rep.finish()
 
